@@ -178,3 +178,6 @@ func ClientConfig(serverName string) *tls.Config {
 		Time:       FixedTime,
 	}
 }
+
+// CAKey returns the harness CA's private key (for scenario-specific leafs).
+func CAKey() *ecdsa.PrivateKey { return Fix().caKey }
